@@ -231,6 +231,9 @@ pub fn judge(case: &PipeCase, run: &NetRun, server: &crate::l3::Server, prop: &s
             }
             if !quiet {
                 match qresp {
+                    // the client kept sending after the quit: when the server closes with unread bytes TCP resets the
+                    // connection and may discard the quit response before the client reads it - not decidable then
+                    None if run.reset && q + 1 < frames.len() => return None,
                     None => return Some(("quit_not_answered".into(), "quit got no response".into())),
                     Some(r) if r.status != 0 => return Some(("quit_status".into(), format!("quit answered {}", r.short()))),
                     _ => {}
